@@ -5,5 +5,6 @@ export CARGO_NET_OFFLINE=true
 mkdir -p /verif/build /verif/evidence /verif/replays
 cd /verif/harness
 cargo build --release --offline -p tvc
+cargo build --release --offline -p tvc-sched
 /verif/build/target/release/tvc selftest
 echo "setup ok"
